@@ -474,6 +474,11 @@ void ares_thread_mutex_lock(ares_thread_mutex_t *mut)
   if (mut == NULL) {
     return;
   }
+#ifdef CARES_VERIF_HOOKS
+  if (ares_verif_hooks.mutex_lock != NULL && ares_verif_hooks.mutex_lock(mut)) {
+    return;
+  }
+#endif
   pthread_mutex_lock(&mut->mutex);
 }
 
@@ -482,6 +487,12 @@ void ares_thread_mutex_unlock(ares_thread_mutex_t *mut)
   if (mut == NULL) {
     return;
   }
+#ifdef CARES_VERIF_HOOKS
+  if (ares_verif_hooks.mutex_unlock != NULL &&
+      ares_verif_hooks.mutex_unlock(mut)) {
+    return;
+  }
+#endif
   pthread_mutex_unlock(&mut->mutex);
 }
 
@@ -513,6 +524,12 @@ void ares_thread_cond_signal(ares_thread_cond_t *cond)
   if (cond == NULL) {
     return;
   }
+#ifdef CARES_VERIF_HOOKS
+  if (ares_verif_hooks.cond_signal != NULL &&
+      ares_verif_hooks.cond_signal(cond)) {
+    return;
+  }
+#endif
   pthread_cond_signal(&cond->cond);
 }
 
@@ -521,6 +538,12 @@ void ares_thread_cond_broadcast(ares_thread_cond_t *cond)
   if (cond == NULL) {
     return;
   }
+#ifdef CARES_VERIF_HOOKS
+  if (ares_verif_hooks.cond_broadcast != NULL &&
+      ares_verif_hooks.cond_broadcast(cond)) {
+    return;
+  }
+#endif
   pthread_cond_broadcast(&cond->cond);
 }
 
@@ -531,6 +554,14 @@ ares_status_t ares_thread_cond_wait(ares_thread_cond_t  *cond,
     return ARES_EFORMERR;
   }
 
+#ifdef CARES_VERIF_HOOKS
+  if (ares_verif_hooks.cond_wait != NULL) {
+    int verif_timedout = 0;
+    if (ares_verif_hooks.cond_wait(cond, mut, (size_t)-1, &verif_timedout)) {
+      return ARES_SUCCESS;
+    }
+  }
+#endif
   pthread_cond_wait(&cond->cond, &mut->mutex);
   return ARES_SUCCESS;
 }
@@ -572,6 +603,15 @@ ares_status_t ares_thread_cond_timedwait(ares_thread_cond_t  *cond,
     return ares_thread_cond_wait(cond, mut);
   }
 
+#ifdef CARES_VERIF_HOOKS
+  if (ares_verif_hooks.cond_wait != NULL) {
+    int verif_timedout = 0;
+    if (ares_verif_hooks.cond_wait(cond, mut, timeout_ms, &verif_timedout)) {
+      return verif_timedout ? ARES_ETIMEOUT : ARES_SUCCESS;
+    }
+  }
+#endif
+
   ares_timespec_timeout(&ts, timeout_ms);
 
   if (pthread_cond_timedwait(&cond->cond, &mut->mutex, &ts) != 0) {
@@ -583,6 +623,10 @@ ares_status_t ares_thread_cond_timedwait(ares_thread_cond_t  *cond,
 
 struct ares_thread {
   pthread_t thread;
+#ifdef CARES_VERIF_HOOKS
+  void       *verif_handle;
+  ares_bool_t verif_handled;
+#endif
 };
 
 ares_status_t ares_thread_create(ares_thread_t    **thread,
@@ -598,6 +642,14 @@ ares_status_t ares_thread_create(ares_thread_t    **thread,
   if (thr == NULL) {
     return ARES_ENOMEM; /* LCOV_EXCL_LINE: OutOfMemory */
   }
+#ifdef CARES_VERIF_HOOKS
+  if (ares_verif_hooks.thread_create != NULL &&
+      ares_verif_hooks.thread_create(func, arg, &thr->verif_handle)) {
+    thr->verif_handled = ARES_TRUE;
+    *thread            = thr;
+    return ARES_SUCCESS;
+  }
+#endif
   if (pthread_create(&thr->thread, NULL, func, arg) != 0) {
     ares_free(thr);        /* LCOV_EXCL_LINE: UntestablePath */
     return ARES_ESERVFAIL; /* LCOV_EXCL_LINE: UntestablePath */
@@ -616,6 +668,16 @@ ares_status_t ares_thread_join(ares_thread_t *thread, void **rv)
     return ARES_EFORMERR;
   }
 
+#ifdef CARES_VERIF_HOOKS
+  if (thread->verif_handled && ares_verif_hooks.thread_join != NULL &&
+      ares_verif_hooks.thread_join(thread->verif_handle, &ret)) {
+    ares_free(thread);
+    if (rv != NULL) {
+      *rv = ret;
+    }
+    return ARES_SUCCESS;
+  }
+#endif
   if (pthread_join(thread->thread, &ret) != 0) {
     status = ARES_ENOTFOUND;
   }
